@@ -3,7 +3,7 @@
    under the shape invariant mac_ok -- which holds initially and is kept by every operation -- none of these is reached by ANY
    received byte string, and that transmitting panics only in the two deliberate panic!s of prepare_buffer (application misuse). *)
 From Coq Require Import NArith ZArith List Bool.
-From LoraV Require Import Base.Bytes Model.Frame Model.MacCmd Gen.CmdTables Gen.RegionTables Model.Region Model.Mac Model.AsyncDev Proofs.NoPanicProofs Proofs.AsyncNoPanic.
+From LoraV Require Import Base.Bytes Model.Frame Model.MacCmd Gen.CmdTables Gen.RegionTables Model.Region Model.Mac Model.AsyncDev Model.NbDev Proofs.NoPanicProofs Proofs.AsyncNoPanic Proofs.NbNoPanic.
 Import ListNotations.
 Local Open Scope nat_scope.
 
@@ -54,6 +54,23 @@ Section C04.
     adev_send enc mac_fn d e data fport confirmed draws = (d', e', APanic) -> mac_ok (ad_mac d) -> (ad_lead d <= 100)%N -> m_state (ad_mac d) = Joined s ->
     prepare_buffer enc mac_fn s (m_cfg (ad_mac d)) (rg_id (m_region (ad_mac d))) data fport confirmed = Panic.
   Proof. exact (adev_send_panics_only_in_prepare_buffer enc mac_fn enc_len). Qed.
+
+  Hypothesis mac_len : forall k b, length (mac_fn k b) = 16.
+  (* Device::join (OTAA) and Device::rxc_listen: no radio behaviour makes them panic (the From<Response> conversions are never fed a
+     response they reject) *)
+  Theorem C04_async_join_never_panics : forall d e c draws d' e' res,
+    adev_join enc mac_fn d e c draws = (d', e', res) -> mac_ok (ad_mac d) -> (ad_lead d <= 100)%N -> res <> APanic.
+  Proof. exact (adev_join_never_panics enc mac_fn enc_len mac_len). Qed.
+  Theorem C04_async_listen_never_panics : forall d e d' e' res, adev_listen enc mac_fn d e = (d', e', res) -> mac_ok (ad_mac d) -> res <> APanic.
+  Proof. exact (adev_listen_never_panics enc mac_fn enc_len). Qed.
+
+  (* nb_device: for every state of the machine, every event, every answer of the radio (any received packet), a fault at any radio
+     call: no panic except prepare_buffer's on a send request; the MAC invariant is kept, so this holds along every event sequence *)
+  Theorem C04_nb_event_never_panics : forall st m e ev ans st' m' e' r, handle_event enc mac_fn st m e ev ans = (st', m', e', r) -> mac_ok m ->
+    mac_ok m' /\
+    (r = NrPanic -> exists s data fport confirmed draws, ev = NSend data fport confirmed draws /\ st = NIdle /\ m_state m = Joined s /\
+                      prepare_buffer enc mac_fn s (m_cfg m) (rg_id (m_region m)) data fport confirmed = Panic).
+  Proof. exact (nb_event_never_panics enc mac_fn enc_len mac_len). Qed.
 End C04.
 
 (* channel selection: never a panic, the invariant is kept, for every random stream *)
